@@ -62,6 +62,12 @@ def run_history(rng, info, idx, ann, nsteps, fixed_steps=None):
         if step is None or region_done:
             continue
         before = R.flat_nodes(sched)
+        if step[0] == "rcl":          # redundant computation on the n-th kernel loop
+            from psyclone.psyGen import HaloExchange
+            loops = [i for i, nd in enumerate(before) if not isinstance(nd, HaloExchange)]
+            if step[1] >= len(loops):
+                continue
+            step = ["rc", loops[step[1]], step[2]]
         try:
             R.apply_step(sched, step)
         except TransformationError:
@@ -178,6 +184,58 @@ def payload(kernels_src, invoke, ann, steps, extra):
     return p
 
 
+# ---- systematic two-kernel family ------------------------------------------------------------------
+SYS_POOL = [
+    {"name": "c22w0", "args": [["write", "w3", None]]},
+    {"name": "c22w1", "args": [["readwrite", "w3", None]]},
+    {"name": "c22w2", "args": [["inc", "w1", None]]},
+    {"name": "c22w3", "args": [["readinc", "w1", None]]},
+    {"name": "c22w4", "args": [["write", "w1", None]]},
+    {"name": "c22r0", "args": [["inc", "w2", None], ["read", "w3", None]]},
+    {"name": "c22r1", "args": [["inc", "w2", None], ["read", "w1", None]]},
+    {"name": "c22r2", "args": [["write", "wtheta", None], ["read", "w3", "cross"]]},
+    {"name": "c22r3", "args": [["write", "wtheta", None], ["read", "w1", "region"]]},
+    {"name": "c22r4", "args": [["readwrite", "wtheta", None], ["read", "any_space_1", None]]},
+    {"name": "c22r5", "args": [["inc", "w2", None], ["read", "any_space_1", "cross"]]},
+]
+
+
+def systematic_invokes():
+    """writer of a target field followed by a reader of it: every writer kind x reader kind"""
+    out = []
+    for target, writers, readers in (("fd", [0, 1, "setval_c"], [5, 7, 9, 10, 1, "inc_a_times_x", "setval_x"]),
+                                     ("fb", [2, 3, 4, "setval_c"], [6, 8, 9, 10, 2, 3, "inc_a_times_x", "setval_x"])):
+        for w in writers:
+            wc = ["builtin", w, [target]] if isinstance(w, str) else ["kern", w, [target], [None]]
+            for r in readers:
+                if r == "inc_a_times_x":
+                    rcs = [["builtin", r, [target]]]
+                elif r == "setval_x":
+                    rcs = [["builtin", r, ["fg" if target == "fd" else "fc", target]]]
+                elif r in (0, 1, 2, 3, 4):
+                    rcs = [["kern", r, [target], [None]]]
+                elif len(SYS_POOL[r]["args"][1]) == 3 and SYS_POOL[r]["args"][1][2]:
+                    rcs = [["kern", r, ["fe" if r in (7, 8) else "fc", target], [None, e]] for e in (1, "ext1")]
+                else:
+                    rcs = [["kern", r, ["fe" if r == 9 else "fc", target], [None, None]]]
+                for rc in rcs:
+                    out.append([wc, rc])
+    return out
+
+
+def systematic_histories():
+    hs = []
+    for dw in ("skip", 1, 2, None):
+        for dr in ("skip", 2, 3, None):
+            h = []
+            if dw != "skip":
+                h.append(["rcl", 0, dw])
+            if dr != "skip":
+                h.append(["rcl", 1, dr])
+            hs.append(h)
+    return hs
+
+
 # ---- run ---------------------------------------------------------------------------------------
 def corpus_cases():
     out = []
@@ -232,7 +290,10 @@ def run(chk):
         "is_dirty(d) tests depth d",
         "with COMPUTE_ANNEXED_DOFS=true annexed dofs of continuous fields are clean on entry to the invoke",
         "fields of vector size 1; no inter-grid kernels, operators or loop fusion; one kernel per loop",
-        "a halo read while an asynchronous exchange of the same field is in flight sees the previous state"]
+        "a halo read while an asynchronous exchange of the same field is in flight sees the previous state",
+        "LFRic metadata rules hold (GH_INC/GH_READINC only on continuous/any_space arguments, stencils only on GH_READ)",
+        "the mesh halo is deep enough for every access (configurations (H, extents) with a need > H are skipped: LFRic aborts)",
+        "model of required() is in FIXED mode (fixes/C22-required-max-depth-m1.patch)"]
     chk.cov["trusted_base"] = [
         "Lean 4.33.0 kernel", "axioms propext/Classical.choice/Quot.sound only (audited)",
         "dynamic specification C22.specNeed/specAfter/stepF (written from doc/developer_guide/APIs.rst)",
@@ -271,8 +332,25 @@ def run(chk):
         for f in findings:
             if known_hits.get(f["id"], 0) > before.get(f["id"], 0):
                 chk.known(f["what"])
-        # 2. generated invokes
-        n_inv = 120 if thorough else 22
+        # 2. systematic family: writer kind x reader kind x redundant-computation depths x annexed
+        sys_inv = systematic_invokes()
+        if not thorough:
+            sys_inv = rng.sample(sys_inv, 12)
+        info = R.parse_file(wd.path, SYS_POOL, sys_inv, tag="sys")
+        cases = []
+        for idx, invk in enumerate(sys_inv):
+            for ann in (0, 1):
+                for hist in systematic_histories():
+                    res = run_history(rng, info, idx, ann, 0, fixed_steps=hist)
+                    if "crash" in res:
+                        dist["crashed"] += 1
+                        continue
+                    account(res)
+                    cases.append({"kernel_pool": SYS_POOL, "invoke": invk, "annexed": ann, "result": res})
+        dist["systematic_cases"] = len(cases)
+        evaluate(chk, cases, findings, known_hits)
+        # 3. generated invokes
+        n_inv = 120 if thorough else 10
         n_hist = 8 if thorough else 4
         pool = [R.gen_kernel(rng, i) for i in range(24 if thorough else 12)]
         invokes = [R.gen_invoke(rng, pool) for _ in range(n_inv)]
